@@ -9,7 +9,7 @@ static bool is_nan(int type, const std::string& v) { return ref::is_nan_value(ty
 
 // (a) page statistics written by carquet's writer, judged through the peer reader
 void check_writer_page_stats(sim::RunCtx& ctx) {
-    gen::FlatOpts fo; fo.allow_wide = false;
+    gen::FlatOpts fo; fo.allow_wide = false; fo.allow_unsigned = true;
     gen::WritePlan p = gen::gen_write_plan(fo);
     ctx.sample = "writer page statistics: " + p.describe();
     common::plan_tags_and_shape(ctx, p);
@@ -34,7 +34,8 @@ void check_writer_page_stats(sim::RunCtx& ctx) {
             for (size_t i = pg.first_value; i < pg.first_value + pg.n_values; i++) {
                 const std::string& v = ch.vals[i];
                 if (is_nan(c.type, v)) continue;
-                SIM_CHECK(ref::cmp_values(c.type, pg.st_min, v) <= 0 && ref::cmp_values(c.type, v, pg.st_max) <= 0, "page_stats.not_a_bound", "rg%d col%d (%s) page at %llu: value %s outside [min %s, max %s]", ci.rg, ci.col, type_name(c.type), (unsigned long long)pg.header_off,
+                const Col& mc = p.table.cols[(size_t)ci.col];      // the column as the caller declared it (annotation -> order of its statistics)
+                SIM_CHECK(ref::cmp_ordered(mc, pg.st_min, v) <= 0 && ref::cmp_ordered(mc, v, pg.st_max) <= 0, "page_stats.not_a_bound", "rg%d col%d (%s) page at %llu: value %s outside [min %s, max %s]", ci.rg, ci.col, type_name(c.type), (unsigned long long)pg.header_off,
                           sim::hex(v.data(), v.size()).c_str(), sim::hex(pg.st_min.data(), pg.st_min.size()).c_str(), sim::hex(pg.st_max.data(), pg.st_max.size()).c_str());
             }
             SIM_COUNT("probe.page_minmax_checked");
